@@ -145,6 +145,19 @@ def typed_value_specs(ctx):
     return specs
 
 
+def zero_tolerance_specs(ctx):
+    """End points of the tolerances that a deterministic run reads: tol_noise = 0 (identical repeats differ by exactly 0, which is not MORE
+    than the tolerance), tol_fun tiny, tol_mesh at the default."""
+    from .. import gen
+    rng = ctx.sub_rng("c04tol")
+    specs = []
+    for opts in ({"tol_noise": 0}, {"tol_noise": 0.0}, {"tol_noise": 0, "tol_fun": 1e-12}):
+        sp = gen.make_spec(rng, D=rng.choice([1, 2]), mode="det", geom="box", opt_loc="inside", cons=None, target="quad")
+        sp["options"] = dict({"n_search": 32, "max_fun_evals": 50}, **opts)
+        specs.append(sp)
+    return specs
+
+
 def multi_improve_specs(ctx, n):
     """Deterministic runs that start far from the optimum, poll completely (complete_poll) and stop after very few iterations: several
     points of one poll improve on the incumbent, in any order, and the run returns right afterwards - the returned point must be the
@@ -217,6 +230,7 @@ def run(ctx):
     runlevel.with_extra(ctx, "c04spell", lambda: spelling_specs(ctx))
     runlevel.with_extra(ctx, "c04offset", lambda: large_offset_specs(ctx, 5 if ctx.quick else 40))
     runlevel.with_extra(ctx, "c04dtype", lambda: typed_value_specs(ctx))
+    runlevel.with_extra(ctx, "c04tol", lambda: zero_tolerance_specs(ctx))
     stats, samples = run_checks(ctx, rep)
     dstats = runlevel.det_replay(ctx, rep)
     rep.coverage = {
